@@ -451,9 +451,22 @@ fn operands(rng: &mut Rng, n: usize, thorough: bool) -> Vec<(Vec<u8>, Vec<u8>)> 
         b[(bit / 8 + 5) % n] ^= 1 << (bit % 8);
         v.push((a, b));
     }
-    for _ in 0..(if thorough { 24 } else { 5 }) {
+    for _ in 0..(if thorough { 160 } else { 5 }) {
         v.push((rng.bytes(n), rng.bytes(n)));
     }
+    // related operands: b = !a (sums of all-ones, no shared bits), b = a (equal words), b = a + 1 per 64-bit word, b = -a
+    let ra = rng.bytes(n);
+    v.push((ra.clone(), ra.iter().map(|x| !x).collect()));
+    v.push((ra.clone(), ra.clone()));
+    let mut neg = vec![];
+    let mut inc = vec![];
+    for ch in ra.chunks(8) {
+        let w = u64::from_le_bytes([ch[0], ch[1], ch[2], ch[3], ch[4], ch[5], ch[6], ch[7]]);
+        neg.extend_from_slice(&w.wrapping_neg().to_le_bytes());
+        inc.extend_from_slice(&(!w).wrapping_add(1 << 32).to_le_bytes());
+    }
+    v.push((ra.clone(), neg));
+    v.push((ra, inc));
     // add with carries: a + b where each word of a is all-ones minus small
     let a: Vec<u8> = (0..n).map(|i| if i % 4 == 0 { 0xfe } else { 0xff }).collect();
     let b: Vec<u8> = (0..n).map(|i| if i % 4 == 0 { 0x03 } else { 0x00 }).collect();
